@@ -898,7 +898,6 @@ pub fn pattern_strategy(o: &GenOpts) -> BoxedStrategy<Vec<Stmt>> {
         ]
     };
     let z = Val::zero;
-    let _ = o;
     // --- dedup: op(a, b) and op(a, copy(b)) [result optionally aliased to an input]
     let dedup = (val_strategy(), val_strategy(), via(), 0u8..5, proptest::option::of(via()), any::<bool>())
         .prop_map(move |(va, vb, v, op, alias, swap)| {
@@ -979,7 +978,12 @@ pub fn pattern_strategy(o: &GenOpts) -> BoxedStrategy<Vec<Stmt>> {
         s.push(Stmt::Mul(rel(3), rel(0)));
         s
     });
-    prop_oneof![4 => dedup, 4 => fusion, 1 => heal].boxed()
+    if o.allow_hints && o.allow_ext {
+        prop_oneof![4 => dedup, 4 => fusion, 1 => heal].boxed()
+    } else {
+        // the `heal` pattern recomposes coefficients; generators without ext statements skip it
+        prop_oneof![dedup, fusion].boxed()
+    }
 }
 
 struct ExprIdx;
